@@ -224,9 +224,18 @@ def legacy_reference(record, which):
     return pts
 
 
+def legacy_variants():
+    return _legacy_build()[0]
+
+
 def legacy_checks():
     vs = []
     n = 0
+    variants, rec = _legacy_build()
+    return _legacy_run(variants, rec)
+
+
+def _legacy_build():
     path = os.path.join(treeenv.FIXTURES, "sampler.sunsynth")
     data = open(path, "rb").read()
     chunks = codec.parse_chunks(data)
@@ -251,6 +260,12 @@ def legacy_checks():
     ri2 = next(i for i, (cid, d) in enumerate(out2) if cid == b"CHDT" and len(d) >= 0x100 and d[0xFC:0x100] == b"PMAS")
     out2[ri2] = (b"CHDT", rec[:0xFC] + b"XXXX" + rec[0x100:])
     variants["no-envelopes+signature-altered"] = codec.build_chunks(out2)
+    return variants, rec
+
+
+def _legacy_run(variants, rec):
+    vs = []
+    n = 0
     for name, x in variants.items():
         n += 1
         case = {"legacy": name}
